@@ -202,6 +202,21 @@ def parse_color_to_rgb(
 
         # HSL/HSLA functional notation
         if s_lower.startswith("hsl(") or s_lower.startswith("hsla("):
+            # hsl() and hsla() are aliases: what tells them apart is whether an alpha is
+            # given (after a comma, a blank or a slash), so "hsl(0 0% 0% / 0.5)" is not
+            # read as an opaque colour and "hsla(0 0% 0% / 0.5)" is not rejected
+            if s_lower.endswith(")"):
+                parts = [
+                    p
+                    for p in re.split(r"[\s,/]+", s_lower[s_lower.index("(") + 1 : -1])
+                    if p
+                ]
+                if len(parts) == 4:
+                    s = "hsla({}, {}, {}, {})".format(*parts)
+                    s_lower = s
+                elif len(parts) == 3:
+                    s = "hsl({}, {}, {})".format(*parts)
+                    s_lower = s
             if s_lower.startswith("hsla("):
                 bg_rgb = None
                 if background is not None:
